@@ -171,6 +171,8 @@ def judge(ctx, case, r, record=True):
 
 
 def check_case(ctx, case):
+    if 'other' in case:
+        return check_other(ctx, case)
     r = ctx.compile(src=source(case))
     ctx.ran(1)
     return judge(ctx, case, r, True)
@@ -203,9 +205,74 @@ def note(ctx, case):
             ctx.nontrivial(ng.render_rule(t))
 
 
+
+# ---- placeholders in the argument of every selector-taking pseudo (not only :is/:where/:matches/:any/:not)
+OTHER_PSEUDOS = ['::slotted(%s)', '::cue(%s)', ':current(%s)', ':host(%s)', ':host-context(%s)', ':-webkit-any(%s)', ':-moz-any(%s)', ':has(%s)',
+                 ':nth-child(2n+1 of %s)', ':nth-last-child(odd of %s)', ':is(%s)', ':where(%s)']
+PH_TOKEN = re.compile(r'%[A-Za-z_][\w-]*')
+
+
+def gen_other(rng):
+    rules = []
+    for i in range(rng.randint(2, 6)):
+        members = []
+        n = rng.randint(1, 3)
+        allph = rng.random() < 0.35
+        for _ in range(n):
+            members.append('%%ph%d' % rng.randint(0, 5) if allph or rng.random() < 0.5 else rng.choice(['.k%d' % rng.randint(0, 5), 'q', '.a .b', '#i']))
+        ps = rng.choice(OTHER_PSEUDOS) % ', '.join(members)
+        alt = False
+        if rng.random() < 0.25 and not ps.startswith('::'):
+            w = rng.choice([':is(%s, .w)', ':is(x%s)'])
+            alt = '.w' in w                 # another member of the outer :is() keeps the rule alive
+            ps = w % ps
+        head = rng.choice(['a', '.c', 'a.c', '']) + ps
+        if head.startswith('::'):
+            head = 'e' + head
+        if rng.random() < 0.3:
+            head = '.o > ' + head
+        has_ph = any(m.startswith('%') for m in members)
+        rules.append({'sel': head, 'n': i, 'all_ph': all(m.startswith('%') for m in members) and not alt, 'has_ph': has_ph})
+    return {'other': rules}
+
+
+def check_other(ctx, case):
+    rules = case['other']
+    src = '\n'.join('%s { o%d: %d; }' % (r['sel'], r['n'], r['n']) for r in rules)
+    res = ctx.compile(src=src)
+    ctx.ran(1)
+    if res.get('status') != 'ok':
+        ctx.undecided('other-pseudo-stylesheet-' + str(res.get('status')), (res.get('err') or '')[:100].replace('\n', ' | '))
+        return
+    if any(r['has_ph'] for r in rules):
+        ctx.nontrivial(src)
+    out = res.get('out', '')
+    try:
+        tree = css.parse(out)
+    except Exception:
+        ctx.undecided('output-not-parsed')
+        return
+    for path, node in css.walk(tree):
+        sel = node.get('prelude') if node.get('t') == 'rule' else ''
+        if isinstance(sel, str) and PH_TOKEN.search(re.sub(r'"[^"]*"|\'[^\']*\'', '', sel)):
+            ctx.violation('placeholder-printed|inside-a-selector-pseudo-argument', case, {'selector': sel[:200], 'src': src, 'out': out[:600]})
+            return
+    for r in rules:
+        ctx.seen('other_pseudos', re.sub(r'\(.*', '', r['sel'].split('>')[-1].strip().lstrip('aec.'))[:20])
+        present = ('o%d:' % r['n']) in out
+        if r['all_ph'] and present:
+            ctx.violation('rule-kept-although-every-argument-member-is-a-placeholder', case, {'rule': r['sel'], 'out': out[:600]})
+            return
+        if not r['has_ph'] and not present:
+            ctx.violation('rule-without-placeholder-not-emitted', case, {'rule': r['sel'], 'out': out[:600]})
+            return
+
+
 def worker(ctx):
     n = 0
     while not ctx.expired():
+        for _ in range(6):
+            check_other(ctx, gen_other(ctx.rng))
         cases = [gen_case(ctx.rng) for _ in range(12)]
         res = ctx.batch([{'src': source(c)} for c in cases])
         ctx.ran(len(cases))
